@@ -1,9 +1,16 @@
 (* C14's token-level statement for the concrete stack AND the reference tokenizer of Spec/LuaLex.v:
    the chunking hypotheses of Proofs/ReqEmbedProofs.build_code_tokens are discharged by
-   Proofs/SpecLexChunk.v, the side conditions on build.py's regenerated constants by computation.
-   What remains assumed is the token-faithful echo of the lexer model (property C06). *)
-From PV Require Import Base.Prelude Spec.LuaLex Instances.HoldsC01 Generated.T_files_build
+   Proofs/SpecLexChunk.v, the side conditions on build.py's regenerated constants by computation, and
+   the token-faithful echo by property C06's theorems about the lexer model (Proofs/EchoProofs.v:
+   model_holds_C06, echo_crlf_only; Proofs/LexerChunk.v: model_lex_chunking) together with
+   SpecLexChunk.holds_C06_sig_views - for line lists whose lines end in a line feed (all but the last)
+   and consist of bytes. *)
+From PV Require Import Base.Prelude Spec.LuaLex Instances.HoldsC01 Instances.HoldsC06 Generated.T_lexer Generated.T_files_build
+  Model.Lexer Model.EchoWriter Proofs.LexerProofs Proofs.LexerChunk Proofs.EchoProofs
   Model.ReqEmbed Model.ReqEmbedInst Proofs.ReqEmbedProofs Proofs.ReqEmbedInstProofs Proofs.SpecLexChunk.
+Close Scope pm_scope.
+
+Notation view := (Z * list Z * Z * Z * Z)%type.
 
 Lemma ends_with_nl_last_lf a : ends_with_nl a = true -> a = [] \/ last a 0 = 10.
 Proof. intros H. apply ends_with_nl_last in H. destruct H as (r & ->). right. apply last_last. Qed.
@@ -14,61 +21,81 @@ Proof. intros H. apply sig_views_app, ends_with_nl_last_lf, H. Qed.
 
 (* the regenerated preambles and the closing line are in the dialect *)
 Lemma constants_lex :
-  Forall (lexes (Z * list Z * Z * Z * Z) sig_views) require_lua_preamble_package /\
-  Forall (lexes (Z * list Z * Z * Z * Z) sig_views) require_lua_preamble_require /\
-  lexes (Z * list Z * Z * Z * Z) sig_views end_line_now.
+  Forall (lexes view sig_views) require_lua_preamble_package /\
+  Forall (lexes view sig_views) require_lua_preamble_require /\
+  lexes view sig_views end_line_now.
 Proof.
   unfold lexes. repeat split; repeat constructor; vm_compute; discriminate.
 Qed.
 
-Lemma build_code_tokens_spec :
-  (forall ls q t, from_lines ls = Ok q -> sig_views (concat ls) = Some t -> sig_views (concat (echo_lines q)) = Some t) ->
-  forall cwd fs lua_path fuel main_path main_content out,
-  build_code_now cwd fs lua_path fuel main_path main_content = Ok out ->
-  exists r pk, build_lua_now cwd fs lua_path fuel main_path main_content = Ok (r, pk) /\
-    let toks := toks (Z * list Z * Z * Z * Z) sig_views in
-    let lexes := lexes (Z * list Z * Z * Z * Z) sig_views in
-    (Forall (fun e => lexes (header_line_now (fst e)) /\ lexes (concat (echo_lines (snd e)))) pk ->
-     lexes main_content ->
-     sig_views out = Some match pk with
-                          | [] => toks main_content
-                          | _ => concat (map toks require_lua_preamble_package)
-                                 ++ concat (map (fun e => toks (header_line_now (fst e))
-                                                          ++ toks (concat (echo_lines (snd e))) ++ toks end_line_now) pk)
-                                 ++ concat (map toks require_lua_preamble_require) ++ toks main_content
-                          end).
+(* ---------- the echo of the lexer model, on good line lists ---------- *)
+Definition good_lines (ls : list bytes) : Prop := Forall ends_lf (removelast ls) /\ Forall byte (concat ls).
+
+Lemma echo_toks_concat ts : forall cur pending, (pending = false -> cur = []) ->
+  concat (echo_toks ts cur pending) = cur ++ concat (map tok_code ts).
 Proof.
-  intros Hecho cwd fs lua_path fuel mp mc out H.
-  destruct (build_code_tokens_now (Z * list Z * Z * Z * Z) sig_views sig_views_chunking sig_views_final_lf sig_views_nil Hecho
-              cwd fs lua_path fuel mp mc out H) as (r & pk & Hb & Ht).
-  exists r, pk. split; [exact Hb|]. cbv zeta in *. intros Hpk Hmc.
-  destruct constants_lex as (H1 & H2 & H3). apply Ht; assumption.
+  induction ts as [|t r IH]; intros cur pending Hp; cbn [echo_toks map concat].
+  - destruct pending; [cbn; rewrite !app_nil_r; reflexivity | rewrite (Hp eq_refl); reflexivity].
+  - destruct (t_kind t); try (rewrite IH by discriminate; rewrite <- app_assoc; reflexivity).
+    cbn [concat]. rewrite IH by reflexivity. cbn [app]. rewrite <- app_assoc. reflexivity.
 Qed.
 
-(* the same with the remaining hypothesis put in the form of property C06's predicate: the echo of every
-   text the build lexes satisfies holds_C06 (Instances/HoldsC06.v; C06 proves this of the lexer model for
-   texts given as lines ending in LF), and has no lone carriage return when the text is in the dialect *)
-From PV Require Import Instances.HoldsC06.
+Lemma echo_views ls q t :
+  good_lines ls -> from_lines ls = Ok q -> sig_views (concat ls) = Some t ->
+  sig_views (concat (ReqEmbedInst.echo_lines q)) = Some t.
+Proof.
+  intros [Hlf HB] Hq Ht. unfold from_lines in Hq.
+  destruct (model_lex ls) as [ts|e] eqn:Hm; [|discriminate]. cbn [bind] in Hq.
+  destruct (ParserInst.lua_parse _) as [[root p]|e]; [|discriminate]. cbn [bind] in Hq. injection Hq as <-.
+  unfold ReqEmbedInst.echo_lines. cbn [l_toks]. rewrite echo_toks_concat by reflexivity. cbn [app].
+  rewrite (model_lex_chunking ls Hlf) in Hm.
+  assert (Hs : exists ss, spec_lex (concat ls) = Some ss).
+  { unfold sig_views, spec_toks in Ht. destruct (spec_lex (concat ls)) as [ss|]; [eexists; reflexivity | discriminate]. }
+  destruct Hs as (ss & Hs).
+  pose proof (model_holds_C06 (concat ls) HB) as H06. unfold echo_source in H06. rewrite Hm in H06.
+  destruct (echo_crlf_only (concat ls) ss HB Hs) as (lines & Hl & Hcr). unfold echo_source in Hl. rewrite Hm in Hl.
+  injection Hl as <-. rewrite echo_concat in H06, Hcr.
+  exact (holds_C06_sig_views _ _ _ H06 Hcr Ht).
+Qed.
 
-Lemma build_code_tokens_spec_c06 :
-  (forall ls q, from_lines ls = Ok q -> holds_C06 (concat ls) (concat (echo_lines q)) = true) ->
-  (forall ls q t, from_lines ls = Ok q -> sig_views (concat ls) = Some t ->
-                  crlf_only (concat (echo_lines q)) = true) ->
+(* iterating a binary file gives a good line list *)
+Lemma removelast_cons_good (x : bytes) l : ends_lf x -> Forall ends_lf (removelast l) -> Forall ends_lf (removelast (x :: l)).
+Proof. intros Hx Hl. destruct l; [constructor|]. change (removelast (x :: l :: l0)) with (x :: removelast (l :: l0)). constructor; assumption. Qed.
+
+Lemma file_lines_from_lf s : forall cur, Forall ends_lf (removelast (file_lines_from s cur)).
+Proof.
+  induction s as [|c r IH]; intros cur; cbn [file_lines_from].
+  - destruct cur; constructor.
+  - destruct (c =? 10) eqn:E; [|apply IH]. apply Z.eqb_eq in E. subst c. apply removelast_cons_good; [|apply IH].
+    exists (rev cur). unfold rev'. rewrite <- rev_alt. reflexivity.
+Qed.
+
+Lemma file_lines_good c : Forall byte c -> good_lines (file_lines c).
+Proof. intros H. split; [apply file_lines_from_lf | rewrite file_lines_concat; exact H]. Qed.
+
+Lemma build_code_tokens_spec :
   forall cwd fs lua_path fuel main_path main_content out,
   build_code_now cwd fs lua_path fuel main_path main_content = Ok out ->
   exists r pk, build_lua_now cwd fs lua_path fuel main_path main_content = Ok (r, pk) /\
-    let toks := toks (Z * list Z * Z * Z * Z) sig_views in
-    let lexes := lexes (Z * list Z * Z * Z * Z) sig_views in
-    (Forall (fun e => lexes (header_line_now (fst e)) /\ lexes (concat (echo_lines (snd e)))) pk ->
-     lexes main_content ->
+    let toks := toks view sig_views in
+    let lexes := lexes view sig_views in
+    (Forall (fun e => lexes (header_line_now (fst e)) /\ lexes (concat (ReqEmbedInst.echo_lines (snd e)))) pk ->
+     lexes main_content -> Forall byte main_content ->
+     (forall m, from_lines (file_lines main_content) = Ok m ->
+                good_lines (prepend_lines lua ReqEmbedInst.echo_lines require_lua_preamble_package
+                                          require_lua_preamble_require header_line_now end_line_now nl_line_now m pk)) ->
      sig_views out = Some match pk with
                           | [] => toks main_content
                           | _ => concat (map toks require_lua_preamble_package)
                                  ++ concat (map (fun e => toks (header_line_now (fst e))
-                                                          ++ toks (concat (echo_lines (snd e))) ++ toks end_line_now) pk)
+                                                          ++ toks (concat (ReqEmbedInst.echo_lines (snd e))) ++ toks end_line_now) pk)
                                  ++ concat (map toks require_lua_preamble_require) ++ toks main_content
                           end).
 Proof.
-  intros H06 Hcr. apply build_code_tokens_spec. intros ls q t Hq Ht.
-  eapply holds_C06_sig_views; [apply H06, Hq | eapply Hcr; eassumption | exact Ht].
+  intros cwd fs lua_path fuel mp mc out H.
+  destruct (build_code_tokens_now view sig_views good_lines sig_views_chunking sig_views_final_lf sig_views_nil
+              (fun ls q t Hg Hq Ht => echo_views ls q t Hg Hq Ht)
+              cwd fs lua_path fuel mp mc out H) as (r & pk & Hb & Ht).
+  exists r, pk. split; [exact Hb|]. cbv zeta in *. intros Hpk Hmc HB Hgood.
+  destruct constants_lex as (H1 & H2 & H3). apply Ht; try assumption. apply file_lines_good, HB.
 Qed.
